@@ -91,7 +91,7 @@ func buildInstrumentedReplay(P *Program, tag string) (string, []loopInfo, error)
 		}
 		pdir := filepath.Dir(pf.path)
 		if pkgs[pdir] == nil {
-			ip := "github.com/philpearl/plenc" + strings.TrimPrefix(pdir, "/repo")
+			ip := "github.com/philpearl/plenc" + strings.TrimPrefix(pdir, repoRoot())
 			pkgs[pdir] = &pkgInfo{name: pf.f.Name.Name, dir: pdir, importPath: ip}
 		}
 		var b bytes.Buffer
